@@ -132,6 +132,17 @@ CHECKS = {
          'one combined tree, and nested (statement / expression of file B inside file A). Only lexer-synthesised semicolons (hooked) are exempt.',
     note=TRUSTED + 'refjs token log of each source; cases on which the two trees differ are skipped and counted.',
     design='DESIGN.md section 3, C08'),
+ 'C09': dict(
+    technique='runtime monitor wrapped around the real sourcemap.write (recording stream, materialised fragments) + independent generated-position tracker + Source Map V3 reference decoder on the output of the real encode_sourcemap',
+    level='exploration',
+    text='Every call of sourcemap.write in the workload is intercepted: the fragments are recorded, the written text is teed, the returned '
+         'mappings are encoded by the real encode_sourcemap and decoded by refsm. Each explicitly positioned fragment must decode (exact segment; '
+         'by linear interpolation from the preceding segment when normalisation is on and the fragment is not renamed) to its source, line, '
+         'column and original name; indices in range; generated columns non-decreasing; number of mapping lines == lines of the text. '
+         'Streams: real printers over programs (single and chained sources) and synthetic well-formed streams, normalize on and off.',
+    note=TRUSTED + 'vk/ref/refsm.py and vk/ref/refvlq.py (self-tested on specification examples by setup_cmd and at every start); '
+         'fragments written before any fragment named a source are checked for line/column only.',
+    design='DESIGN.md section 3, C09'),
 }
 
 PENDING = 'monitor planned in DESIGN.md section 3 but not built yet in this round; no claim is made'
